@@ -126,7 +126,7 @@ func TestC25(t *testing.T) {
 		for rep := 0; rep < reps; rep++ {
 			jobs = append(jobs, job{c, "transfer", rep}, job{c, "flip", rep}, job{c, "truncate", rep}, job{c, "close", rep})
 			if c.v == tls.VersionTLS13 {
-				jobs = append(jobs, job{c, "keyupdate", rep}, job{c, "coalesced", rep})
+				jobs = append(jobs, job{c, "keyupdate", rep}, job{c, "coalesced", rep}, job{c, "upload-rekey", rep})
 			}
 		}
 	}
@@ -294,6 +294,54 @@ func TestC25(t *testing.T) {
 			x2 := pump(h.Client, h.Server, mkChunks(3), bufs, nil)
 			check("c2s", x2, false, 0)
 			r.Count("key_updates_sent", int64(upd))
+		case "upload-rekey":
+			// a long upload during which the server has nothing to say but rotates its sending
+			// keys again and again (each KeyUpdate in a record of its own, no application data
+			// from the server in between), then the response: it must arrive completely
+			m := []int{5, 31, 32, 33, 48, 100}[(j.rep+i)%6]
+			resp := randBytes(rg, 1+rg.Intn(5000))
+			var got []byte
+			var rerr error
+			done := make(chan struct{})
+			go func() {
+				defer close(done)
+				buf := make([]byte, 4096)
+				for len(got) < len(resp) {
+					n, err := h.Client.Read(buf)
+					got = append(got, buf[:n]...)
+					if err != nil {
+						rerr = err
+						return
+					}
+				}
+			}()
+			var chunks [][]byte
+			for k := 0; k < m; k++ {
+				chunks = append(chunks, randBytes(rg, 200+rg.Intn(1000)))
+			}
+			upd := 0
+			x := pump(h.Client, h.Server, chunks, bufs, func(k int) {
+				if err := tls.VerifSendKeyUpdate(h.Server, k%16 == 7); err == nil {
+					upd++
+				}
+			})
+			check("c2s", x, false, 0)
+			werr := writeAll(h.Server, resp)
+			if werr != nil {
+				h.CEnd.Close() // the reader must not wait for a response that will not come
+				h.SEnd.Close()
+			}
+			<-done
+			if !bytes.Equal(got, resp) {
+				sig["kind"] = "data_lost_after_key_updates"
+				r.Violation(sig, fmt.Sprintf("%#04x/%#04x: after %d KeyUpdates sent during an upload the client read %d of the %d response bytes (read error %v, server write error %v)", j.c.v, j.c.suite, upd, len(got), len(resp), rerr, werr), rep)
+			} else {
+				r.Count("uploads_with_key_updates", 1)
+				r.Count("key_updates_sent", int64(upd))
+				if upd >= 33 {
+					r.Count("uploads_with_33_or_more_key_updates", 1)
+				}
+			}
 		case "coalesced":
 			// a server that puts several post-handshake messages into one record (two session
 			// tickets; a ticket and a KeyUpdate; several KeyUpdates) before / between its data
@@ -379,6 +427,7 @@ func TestC25(t *testing.T) {
 	r.Floor("tampering_detected", 20)
 	if !weak {
 		r.Floor("key_updates_sent", 5)
+		r.Floor("uploads_with_33_or_more_key_updates", 3)
 	}
 }
 
